@@ -13,6 +13,8 @@ that uses real `with UnitEnvironment(...)` blocks, real exceptions and real DIP 
   ["interrupt", k]                 the same with a BaseException that is not an Exception
   ["drop"]                         `del` of every variable that holds an environment object + gc.collect()
   ["dip", T, k]                    the body parses DIP text T (which defines units); a failing parse unwinds k scopes
+  ["use"]                          quiet part only: the program parses unit expressions here - every spelling of every
+                                   open scope must work, every custom spelling of an ended scope must raise
   (end of history)                 every scope that is still open is unwound by an exception
 
 Invariant, evaluated on every transition: at every scope exit (normal, exceptional, failed construction) and after
@@ -55,6 +57,17 @@ Parts:
           key, insert a key in front, replace a value)
   dipredef successive DIP texts defining [len] differently: expression / power / modification / logical results must
           follow the definition of their own text
+  quiet   the POINTS at which unit expressions are parsed are part of the history: 2 or 3 back-to-back items (every
+          unit set with 1 / 2 / 3 units in both styles, normal or exceptional exit; a DIP text) at depth 0 and as sibling
+          scopes inside an outer scope, with every subset of the parse points {inside scope k, between item k and k+1}
+          and one parse at the very end; between these points the harness reads the tables but never calls the unit
+          parser (everywhere else it probes at every scope entry and after every exit, i.e. at every table size the
+          history passes through - which would refresh a symbol index or cache keyed by the size of the table)
+
+Process history: library state outside the three tables (module-level / class-level containers and mutable default
+arguments of scinumtools.units and scinumtools.dip) is put back to its start-up content before and after every case, so
+a verdict never depends on the cases a worker executed before; a failure record carries, besides the history, the index
+from which the harness probed (check_from) / the quiet flag, and the replay parses unit expressions at the same points.
 """
 import copy
 import gc
@@ -71,7 +84,9 @@ RULE = ("history = sequence of scope-machine operations (open set with/explicit,
         "histories with <= 2 failing steps up to the length bound, ordered by number of failing steps; a history is "
         "counted once (ownership rule hist > core > graph > cycles); non-trivial = contains a failing step, or nesting "
         ">= 2, or opens the same set twice. DIP part: every line program (distinct lines, failed programs are leaves); "
-        "non-trivial = defines >= 1 unit and has >= 2 lines")
+        "non-trivial = defines >= 1 unit and has >= 2 lines. Quiet part: sequence of 2 / 3 items (unit set x style x exit, or "
+        "DIP text) x context x subset of parse points; distinct by construction (every one contains a [use] operation or "
+        "is executed without any probe); non-trivial = contains >= 1 parse point")
 ASSUMPTIONS = [
     "the state read by the library between operations is UNIT_STANDARD/UNIT_PREFIXES/UNIT_TYPES (canonical form of "
     "mc/isolation.py, UNIT_TYPES compared by class identity) plus new_units/new_types of the open environments",
@@ -87,6 +102,12 @@ ASSUMPTIONS = [
     "definitions of the symbol (redef, dipredef); everywhere else each custom spelling has one meaning in the whole "
     "alphabet - otherwise a defective look-up cache would make verdicts depend on the process history (not replayable)",
     "CPython reference counting: an object is released when its last reference goes away",
+    "library state outside the unit tables is looked for in module-level and class-level list/dict/set objects and "
+    "mutable default arguments of the scinumtools.units / scinumtools.dip modules (restored between cases; listed in "
+    "coverage.library_state_restored_between_cases); state kept elsewhere (closures, C extensions) would still make a "
+    "verdict depend on the process history - the runner then aborts with a harness error instead of reporting",
+    "quiet part: the only calls of the unit parser are the parse points of the history, the library's own calls "
+    "(Quantity-defined units, DIP statements) and one probe of every custom spelling at the end of the history",
     "DIP: success is demanded only for programs whose every line has its units/nodes defined before use; numerical "
     "expressions that do not mention a custom unit and failing !condition lines carry no demand on the outcome; "
     "nothing is demanded about *which* statements fail, only that the tables are restored when one does",
@@ -333,7 +354,7 @@ def _step(stack, op):
         return stack[:len(stack) - op[1]]
     if k in ("fail", "dip"):
         return stack[:len(stack) - op[2]] if _predict_fail(stack, op) else stack
-    if k in ("drop", "mutate"):
+    if k in ("drop", "mutate", "use"):
         return stack
     raise HarnessError("bad op %r" % (op,))
 
@@ -386,6 +407,8 @@ def _nfaults(hist):
 
 def _owner(hist, tier):
     """which part counts this history as a distinct case (parts overlap; each history is counted once)"""
+    if any(op[0] == "use" for op in hist):
+        return "quiet"
     if any(op[0] == "mutate" or (op[0] == "open" and op[1] in XG) for op in hist):
         return "extra"
     if any(op[0] == "open" and op[1] in REDEF_ALT for op in hist):
@@ -518,6 +541,87 @@ def _behaviour(diff):
     return "+".join(sorted(b)) or "differs"
 
 
+# ---- library state OUTSIDE the unit tables (module-level containers, class-level containers, mutable default arguments
+# of scinumtools.units / scinumtools.dip): a defective look-up cache or symbol index kept there would make the verdict
+# of a case depend on the cases executed before it in the same worker.  It is put back (in place) to its start-up
+# content before and after every case, so that every case - and its replay in a fresh process - starts from the same
+# library state; the history that exposes such a cache has to be part of ONE case (quiet part, redef part).
+_HIDDEN = []         # [label, live object, pristine copy]
+
+
+def _hidden_copy(obj):
+    try:
+        return copy.deepcopy(obj)
+    except Exception:
+        return type(obj)(obj)
+
+
+def _hidden_snapshot():
+    import sys
+    import types
+    import scinumtools.dip      # noqa: F401  (loaded now, so that its modules are part of the snapshot)
+    del _HIDDEN[:]
+    tables = iso._tables()
+    seen = {id(t) for t in tables}
+
+    def add(label, obj):
+        if isinstance(obj, (list, dict, set)) and id(obj) not in seen:
+            seen.add(id(obj))
+            try:
+                pristine = _hidden_copy(obj)
+                if bool(obj != pristine):
+                    return
+            except Exception:
+                return      # content that cannot be compared (arrays ...): not tracked
+            _HIDDEN.append([label, obj, pristine])
+
+    def add_function(label, fn):
+        for i, d_ in enumerate(fn.__defaults__ or ()):
+            add("%s:default%d" % (label, i), d_)
+        for k_, d_ in (fn.__kwdefaults__ or {}).items():
+            add("%s:kwdefault:%s" % (label, k_), d_)
+
+    for mname in sorted(sys.modules):
+        mod = sys.modules[mname]
+        if mod is None or not (mname.startswith("scinumtools.units") or mname.startswith("scinumtools.dip")):
+            continue
+        if mname.startswith(("scinumtools.dip.docs", "scinumtools.dip.pygments")):
+            continue        # documentation generators / syntax highlighting: not on any path a case executes
+        for gname, val in sorted(vars(mod).items()):
+            if gname.startswith("__"):
+                continue
+            label = "%s.%s" % (mname, gname)
+            add(label, val)
+            if isinstance(val, types.FunctionType) and val.__module__ == mname:
+                add_function(label, val)
+            elif isinstance(val, type) and val.__module__ == mname:
+                for aname, aval in sorted(vars(val).items()):
+                    if (aname.startswith("__") and aname != "__init__") or (aname.startswith("_") and aname.endswith("_")):
+                        continue        # (_x_: bookkeeping of enum classes)
+                    add("%s.%s" % (label, aname), aval)
+                    fn = aval.__func__ if isinstance(aval, (staticmethod, classmethod)) else aval
+                    if isinstance(fn, types.FunctionType):
+                        add_function("%s.%s" % (label, aname), fn)
+
+
+def _hidden_restore():
+    """put the tracked library state back in place; returns the labels that had changed"""
+    changed = []
+    for label, obj, pristine in _HIDDEN:
+        try:
+            same = bool(obj == pristine)
+        except Exception:
+            same = False
+        if not same:
+            changed.append(label)
+            if isinstance(obj, list):
+                obj[:] = _hidden_copy(pristine)
+            else:
+                obj.clear()
+                obj.update(_hidden_copy(pristine))
+    return changed
+
+
 def init_worker():
     global _PRISTINE, _SPELL
     # object releases must happen at the points the scope programs choose, not when the cyclic collector happens to
@@ -525,6 +629,7 @@ def init_worker():
     gc.disable()
     _classes()
     iso.tables_snapshot()
+    _hidden_snapshot()
     from scinumtools.units.settings import UNIT_STANDARD, UNIT_PREFIXES
     for tbl in (UNIT_STANDARD, UNIT_PREFIXES):
         for ps in tbl._data.values():
@@ -565,9 +670,16 @@ def init_worker():
 
 def _restore():
     """restore the pristine tables; returns the canonical difference that had to be undone ([] if none)"""
+    _hidden_restore()
     if _fp() == _PRISTINE and all(ps.__dict__ == _PRIS_COPY[i] for i, ps in _PRIS_ROWS.items()):
         return []
     return iso.tables_restore()
+
+
+def _case_start():
+    _hidden_restore()
+    if _diff(_PRISTINE):
+        raise HarnessError("tables not pristine at the start of a case: %s" % iso.tables_diff())
 
 
 def _usable(sym):
@@ -643,7 +755,11 @@ def _run_dip(text, env=None, keep=None):
 class Run:
     """executes one history on the real tables; self.fail = first violation (failure record) or None"""
 
-    def __init__(self, hist, check_from=0, values=False):
+    def __init__(self, hist, check_from=0, values=False, quiet=False):
+        # quiet: the harness itself parses NO unit expression (no usability probe at scope entry / exit / after a DIP
+        # parse; the table invariant, which reads the tables only, is still evaluated on every operation); unit
+        # expressions are parsed only where the history says so (["use"]) and once at the very end of the history
+        self.quiet = quiet
         # values: also check what every custom spelling MEANS inside its scope (redef part only: a case that checks
         # meanings must itself contain both definitions of a symbol, otherwise a stale look-up cache left by an
         # earlier case of the same process would make the verdict depend on the process history)
@@ -672,8 +788,15 @@ class Run:
     def case(self):
         # redef part: always the whole history (it contains both definitions of the symbol, so the replay fails in
         # some phase whatever a defective look-up cache of the replaying process happens to hold)
-        upto = len(self.h) if self.values else self.i
-        return dict(route="py", history=[list(op) for op in self.h[:upto]])
+        upto = len(self.h) if self.values or self.quiet else self.i
+        c = dict(route="py", history=[list(op) for op in self.h[:upto]])
+        if self.quiet:
+            c["quiet"] = True
+        if self.check_from:
+            # the operations before this index were executed without usability probes (no unit expression parsed by
+            # the harness there): the replay has to consult the unit parser at the same points as this execution
+            c["check_from"] = min(self.check_from, max(0, upto - 1))
+        return c
 
     def bad(self, sub, expected, observed, tags, behaviour):
         if self.fail is None:
@@ -699,9 +822,9 @@ class Run:
     def ctx_tags(self, depth):
         return ["nested" if depth > 0 else "depth0"]
 
-    def check_open_usable(self, tags, full_top=False):
+    def check_open_usable(self, tags, full_top=False, force=False):
         """every open scope's units work (all spellings of the scope just opened, the symbols of the others)"""
-        if self.i - 1 < self.check_from:
+        if self.i - 1 < self.check_from or (self.quiet and not force):
             return
         for n, (s, st, e) in enumerate(self.stack):
             probes = PROBE[s] if full_top and n == len(self.stack) - 1 else SYMS[s]
@@ -721,11 +844,11 @@ class Run:
                              tags + ["set:" + s], "custom-unit-unusable")
                     return
 
-    def check_gone(self, syms, tags, sub="gone-outside"):
+    def check_gone(self, syms, tags, sub="gone-outside", force=False):
         live = set()
         for s, st, e in self.stack:
             live.update(PROBE[s])
-        if self.i - 1 < self.check_from:
+        if self.i - 1 < self.check_from or (self.quiet and not force):
             return
         for p in syms:
             if p in live or p in _SPELL:
@@ -736,8 +859,7 @@ class Run:
 
     # -- interpreter
     def go(self):
-        if _diff(_PRISTINE):
-            raise HarnessError("tables not pristine at the start of a case: %s" % iso.tables_diff())
+        _case_start()
         try:
             try:
                 self.body(0)
@@ -755,11 +877,8 @@ class Run:
                     self.bad("depth0-pristine", "tables equal the pristine snapshot at depth 0", d, ["depth0"],
                              _behaviour(d))
                 else:
-                    used = []
-                    for op in self.h[:self.i]:
-                        used += PROBE.get(op[1], SYMS.get(op[1], [])) if op[0] in ("open", "fail") else []
-                        used += ["[len]", "[mas]"] if op[0] == "dip" else []
-                    self.check_gone(sorted(set(used)), ["depth0"])
+                    self.check_gone(self.used(), ["depth0"] + (["end-of-quiet-history"] if self.quiet else []),
+                                    force=True)
         finally:
             left = _restore()
         if left and self.fail is None:
@@ -767,6 +886,26 @@ class Run:
             self.bad("depth0-pristine", "tables equal the pristine snapshot at depth 0", left, ["depth0"],
                      _behaviour(left))
         return self.fail
+
+    def used(self):
+        """every custom spelling that an operation executed so far has (tried to) register"""
+        used = []
+        for op in self.h[:self.i]:
+            used += PROBE.get(op[1], SYMS.get(op[1], [])) if op[0] in ("open", "fail") else []
+            used += ["[len]", "[mas]"] if op[0] == "dip" else []
+        return sorted(set(used))
+
+    def use(self, idx, depth):
+        """the program parses unit expressions at this point: every spelling of every open scope must work, every
+        custom spelling of a scope that has ended must raise"""
+        tags = self.ctx_tags(depth) + ["use-op", "parse-point=%d" % sum(1 for op in self.h[:idx + 1] if op[0] == "use")]
+        prev = [op[1] for op in self.h[:idx] if op[0] == "open"]
+        if self.stack and len(prev) >= 2 and len(SYMS[prev[-1]]) == len(SYMS[prev[-2]]):
+            tags.append("previous-scope-had-as-many-units")
+        self.check_open_usable(tags, full_top=True, force=True)
+        if self.fail is None:
+            self.check_gone(self.used(), tags, force=True)
+        self.done(idx, "used")
 
     def body(self, depth):
         self.max_depth = max(self.max_depth, depth)
@@ -797,6 +936,8 @@ class Run:
                 self.scope(op, idx, depth)
             elif k == "drop":
                 self.drop(idx, depth)
+            elif k == "use":
+                self.use(idx, depth)
             elif k == "mutate":
                 self.mutate(op[1], idx, depth)
             elif k == "dip":
@@ -1113,8 +1254,7 @@ def _dip_text(lines):
 def _dip_case(ctx, lines, split=0):
     """run one DIP program in a context; returns (outcome-kind, failure or None)"""
     from scinumtools.units import UnitEnvironment
-    if _diff(_PRISTINE):
-        raise HarnessError("tables not pristine at the start of a case: %s" % iso.tables_diff())
+    _case_start()
     case = dict(route="dip", ctx=ctx, lines=list(lines), split=split)
     feats = sorted({LFEAT[ln] for ln in lines if ln in LFEAT})
     tags = ["ctx:" + ctx] + feats + ["units-defined=%d" % sum(1 for ln in lines if ln in UNIT_LINES)]
@@ -1215,8 +1355,7 @@ DIPINT = dict(
 def _dipint_case(site, exc, ctx):
     """returns (what happened, failure or None)"""
     from scinumtools.units import UnitEnvironment
-    if _diff(_PRISTINE):
-        raise HarnessError("tables not pristine at the start of a case: %s" % iso.tables_diff())
+    _case_start()
     case = dict(route="dipint", site=site, exc=exc, ctx=ctx)
     tags = ["ctx:" + ctx, "interrupted-in:" + site, "registration-interrupted-at-2:" + EXC[exc].__name__]
     bad, what = None, None
@@ -1291,8 +1430,7 @@ def _overlap_case(sets, events, ctx):
     """explicit (non-with) environments opened and closed in any order.  Intermediate states are not judged; once
     every environment is closed the tables must equal what they were before the first one was opened."""
     from scinumtools.units import UnitEnvironment
-    if _diff(_PRISTINE):
-        raise HarnessError("tables not pristine at the start of a case: %s" % iso.tables_diff())
+    _case_start()
     case = dict(route="overlap", sets=list(sets), events=[list(e) for e in events], ctx=ctx)
     ncls = sum(1 for s_ in sets if s_ in ("T", "TU"))
     tags = ["ctx:" + ctx, "lifo" if _is_lifo(events) else "non-lifo", "environments=%d" % len(sets),
@@ -1372,8 +1510,7 @@ def _dipre_expected(L):
 
 def _dipredef_case(seq, body, ctx):
     from scinumtools.units import UnitEnvironment
-    if _diff(_PRISTINE):
-        raise HarnessError("tables not pristine at the start of a case: %s" % iso.tables_diff())
+    _case_start()
     case = dict(route="dipredef", seq=list(seq), body=body, ctx=ctx)
     tags = ["ctx:" + ctx, "body:" + body, "unit-redefined-in-later-text"]
     bad, what = None, "ok"
@@ -1423,6 +1560,86 @@ def _dipredef_case(seq, body, ctx):
 
 
 EXTRA_SETS = ["A", "AB", "BC", "TU", "Q", "SH", "PR"]
+
+# ----------------------------------------------------------------------------------------------- quiet part
+# Back-to-back scopes where the PROGRAM decides at which points unit expressions are parsed.  Everywhere else the
+# harness probes Quantity(1, <custom>) at every scope entry and after every exit, i.e. the unit parser is consulted at
+# every table size the history passes through; here it is consulted only at the parse points of the history (inside
+# scope k / between scope k and scope k+1, every subset of these points) and once at the very end.  Items: every
+# unit set (1, 2 and 3 units; equal and different symbols) in both styles with normal / exceptional exit, and two DIP
+# texts; contexts: depth 0 and sibling scopes inside an outer scope.
+QUIET_SETS = GOOD + ["SH", "PR"]
+QUIET_CORE = ["A", "T", "LM", "AB", "CA"]        # 1, 1, 1, 2, 2 units; AB / CA / A share symbols
+QUIET_DIP = ["DOK", "DMS"]
+QUIET_CTX = dict(top=(), inLM=(("open", "LM", "with"),), inQ=(("open", "Q", "with"),))
+QUIET_N3_CTX = dict(quick=["top"], thorough=["top", "inLM"])
+
+
+def _quiet_items(tier, n):
+    """variants of one sequence position: (set, style, exit op) or (DIP text,)"""
+    if n == 2:
+        v = [(s_, st, ex) for s_ in QUIET_SETS for st in ("with", "explicit") for ex in (("end",), ("raise", 1))]
+        return v + [(t,) for t in QUIET_DIP]
+    sets = QUIET_CORE if tier == "quick" else QUIET_SETS
+    return [(s_, "with", ex) for s_ in sets for ex in (("end",), ("raise", 1))]      # DIP texts: in the pairs only
+
+
+def _quiet_histories(ctx, seq):
+    """every placement of parse points in the sequence of items `seq` executed in context `ctx`: inside each scope
+    that the static model expects to open, and between consecutive items"""
+    base = QUIET_CTX[ctx]
+    out, seen = [], set()
+    points = []
+    for k, it in enumerate(seq):
+        if len(it) == 3:
+            points.append(("in", k))
+        if k < len(seq) - 1:
+            points.append(("after", k))
+    for mask in itertools.product((0, 1), repeat=len(points)):
+        on = {pt for pt, b in zip(points, mask) if b}
+        h, st = list(base), tuple(op[1] for op in base)
+        for k, it in enumerate(seq):
+            if len(it) == 3:
+                op = ("open", it[0], it[1])
+                h.append(op)
+                if not _predict_fail(st, op):        # else: the registration fails, there is no body
+                    if ("in", k) in on:
+                        h.append(("use",))
+                    h.append(it[2])
+            else:
+                h.append(("dip", it[0], 0))
+            if ("after", k) in on:
+                h.append(("use",))
+        h = tuple(h)
+        if h not in seen:
+            seen.add(h)
+            out.append(h)
+    return out
+
+
+def _exec_quiet(hist, sh):
+    _between_cases(sh)
+    r = Run(hist, quiet=True)
+    bad = r.go()
+    sh.evaluations += 1
+    sh.traces += 1
+    sh.transitions += len(hist)
+    sh.max_depth = max(sh.max_depth, r.max_depth)
+    for s_ in r.states:
+        sh.add_to_set("states", s_)
+    nuse = sum(1 for op in hist if op[0] == "use")
+    sh.count("quiet-parse-points=%d" % nuse)
+    if "used" in r.events:
+        sh.count("quiet-used")
+    if "unexpected-accept" in r.events:
+        sh.count("unexpected-accept")
+    if nuse:            # without a parse point the history differs from one of the hist part by its probes only
+        sh.nontrivial += 1
+    if bad is not None:
+        _report(sh, bad)
+        sh.count("violating-history")
+    elif len(sh.samples) < 1 and nuse >= 2:
+        sh.sample(dict(route="py", quiet=True, history=[list(o) for o in hist]))
 
 
 def _extra_histories(sname):
@@ -1508,6 +1725,11 @@ def plan(tier, seed):
     dips += [("extra", sname, tier) for sname in EXTRA_SETS]
     dips += [("redef", (fam, seq), tier) for fam in REDEF for seq in itertools.product((0, 1), repeat=3)
              if len(set(seq)) == 2]
+    dips += [("quiet", (2, (a,)), tier) for a in _quiet_items(tier, 2)]
+    if tier == "quick":
+        dips += [("quiet", (3, (a,)), tier) for a in _quiet_items(tier, 3)]
+    else:
+        dips += [("quiet", (3, (a, b)), tier) for a in _quiet_items(tier, 3) for b in _quiet_items(tier, 3)]
     t3 = _overlap_tuples(3)
     dips += [("overlap", (2, None), tier)] + [("overlap", (3, a), tier) for a in sorted({t[0] for t in t3})]
     # graph: partition of the state graph by the bottom scopes of the stack
@@ -1612,6 +1834,14 @@ def run_shard(desc):
                     h = h + (("open", REDEF[fam][v], o_[2]), x_)
                 _exec(h, sh, tier, "redef", seen)
                 sh.count("redef")
+    elif kind == "quiet":
+        n, first = arg
+        items = _quiet_items(tier, n)
+        for ctx in (QUIET_CTX if n == 2 else QUIET_N3_CTX[tier]):
+            for rest_ in itertools.product(items, repeat=n - len(first)):
+                for h in _quiet_histories(ctx, tuple(first) + rest_):
+                    _exec_quiet(h, sh)
+                    sh.count("quiet-%d-%s" % (n, ctx))
     elif kind == "overlap":
         n, first = arg
         orders = _overlap_orders(n)
@@ -1703,7 +1933,8 @@ def replay(rec):
     if c.get("route") == "dipint":
         return _dipint_case(c["site"], c["exc"], c["ctx"])[1]
     hist = [tuple(op) for op in c["history"]]
-    return Run(hist, values=any(op[0] == "open" and op[1] in REDEF_ALT for op in hist)).go()
+    return Run(hist, check_from=int(c.get("check_from", 0)),
+               values=any(op[0] == "open" and op[1] in REDEF_ALT for op in hist), quiet=bool(c.get("quiet"))).go()
 
 
 def finish(total, tier, seed):
@@ -1712,7 +1943,9 @@ def finish(total, tier, seed):
     h = total.hist
     need = ["last:opened", "last:exit-normal", "last:unwound", "last:construction-failed", "last:dip-ok",
             "last:dip-err", "dip-top-ok", "dip-top-err", "dip-inLM-err", "dip-split-ok",
-            "last:construction-interrupted", "last:unwound-by-interrupt", "redef", "last:dropped-1", "extra"]
+            "last:construction-interrupted", "last:unwound-by-interrupt", "redef", "last:dropped-1", "extra",
+            "quiet-used", "quiet-parse-points=0", "quiet-parse-points=1", "quiet-parse-points=2", "quiet-2-top",
+            "quiet-2-inLM", "quiet-2-inQ", "quiet-3-top"]
     need += ["dipint-%s-interrupted" % site for site in DIPINT]
     missing = [k for k in need if not h.get(k)]
     # parts whose cases may all violate on a defective tree: they only have to have been executed
@@ -1726,7 +1959,11 @@ def finish(total, tier, seed):
                 unpruned_length_full_alphabet=LF[tier], unpruned_length_core_alphabet=LC[tier],
                 dip_program_length=LDIP[tier], good_sets=GOOD, failing_sets={k: FAULT[k] for k in BAD},
                 dip_lines=len(LNAMES), dip_contexts=DIP_CTX, interrupted_registrations=BAD_INT,
-                dip_sites_interrupted=sorted(DIPINT), caps_hit=[])
+                dip_sites_interrupted=sorted(DIPINT),
+                quiet_sequence_items=dict(pairs=len(_quiet_items(tier, 2)), triples=len(_quiet_items(tier, 3))),
+                quiet_contexts=dict(pairs=sorted(QUIET_CTX), triples=QUIET_N3_CTX[tier]),
+                quiet_histories=sum(v for k, v in h.items() if k.startswith("quiet-parse-points=")),
+                library_state_restored_between_cases=[x[0] for x in _HIDDEN], caps_hit=[])
 
 
 MANIFEST = dict(
@@ -1754,7 +1991,15 @@ MANIFEST = dict(
          "factor and dimension of its own definition; object lifetimes (re-binding, del + gc.collect at every later "
          "point) are part of the programs; (extra) units sharing a new conversion class followed by further units, "
          "definition fields that are list objects of built-in rows (order-sensitive row comparison), bodies that "
-         "mutate the dict they passed in. On every transition: tables equal "
+         "mutate the dict they passed in; (quiet) 2-3 back-to-back scopes / DIP parses (10 unit sets of 1, 2 and 3 "
+         "units - equal counts with different symbols included - both styles, normal / exceptional exit, 2 DIP texts; "
+         "triples: with-blocks of 5 sets at depth 0 in quick, of all 10 sets at depth 0 and inside an outer scope in "
+         "thorough), at depth 0 and as siblings inside "
+         "an outer scope, where unit expressions are parsed ONLY at a chosen subset of points (inside scope k, between "
+         "item k and k+1; every subset) and once at the end - a symbol index / look-up cache that is refreshed only "
+         "when the table size changes is exposed there; library state outside the tables (module / class level "
+         "containers, mutable defaults) is reset between cases and each failure record replays with the harness "
+         "probing at the same points. On every transition: tables equal "
          "the scope-entry snapshot at every exit / failed construction / parse, pristine at depth 0, custom units "
          "usable inside and unknown outside.",
     note="Trusted: mc/isolation.py canonical table form (plus identity of UNIT_TYPES classes), the static stack model "
